@@ -281,6 +281,53 @@ def check(run: Run) -> None:
                 if missing:
                     run.violation("R14.1", fi.module, fi.qualname, f"walk over {ast.unparse(g.iter)} without {', '.join(missing)}", f"{fi.qualname} renders the elements of `{ast.unparse(g.iter)}` but only those of kind {sorted(kinds)}: {', '.join(missing)} content below this point is dropped from the rendering while the projection reports lossy=false", line=getattr(w, "lineno", fi.node.lineno))
 
+    # ---------------------------------------------------------------- R14.10
+    run.rule("R14.10", "the serialisers write what the converters produced: a custom YAML Dumper / representer or JSON encoder / default= hook used by the eject tool or the CLI does not rewrite strings (no strip / rstrip / replace / splitlines / expandtabs / case or re.sub call in it): a hook that changes a string - e.g. strips line ends to get block scalars - puts a value into one rendering that the source and the other renderings do not have", 2)
+    REWRITERS = {"strip", "rstrip", "lstrip", "replace", "splitlines", "expandtabs", "lower", "upper", "title", "casefold", "translate", "sub", "subn", "dedent", "normalize", "encode", "decode", "zfill", "center", "ljust", "rjust"}
+
+    def rewrites(node: ast.AST) -> list[str]:
+        return sorted({c.func.attr for c in ast.walk(node) if isinstance(c, ast.Call) and isinstance(c.func, ast.Attribute) and c.func.attr in REWRITERS})
+
+    n10 = 0
+    for mod in run.project.modules.values():
+        hooks_by_name: dict[str, ast.AST] = {}
+        for c0 in ast.walk(mod.tree):
+            if isinstance(c0, ast.ClassDef) and any("Dumper" in ast.unparse(b) or "JSONEncoder" in ast.unparse(b) for b in c0.bases):
+                hooks_by_name[c0.name] = c0
+            if isinstance(c0, (ast.FunctionDef, ast.Lambda)) and isinstance(c0, ast.FunctionDef):
+                hooks_by_name.setdefault(c0.name, c0)
+        class _Top:  # module-level statements (a representer is usually registered at import time)
+            qualname = "<module>"
+            node = ast.Module(body=[st for st in mod.tree.body if not isinstance(st, (ast.FunctionDef, ast.AsyncFunctionDef, ast.ClassDef))], type_ignores=[])
+
+        for fi in list(mod.functions.values()) + [_Top]:
+            for c in (walk_no_nested(fi.node) if fi is not _Top else ast.walk(fi.node)):
+                if not isinstance(c, ast.Call):
+                    continue
+                fn = ast.unparse(c.func)
+                if fn.split(".")[-1] in ("add_representer", "add_multi_representer") and len(c.args) >= 2:
+                    n10 += 1
+                    target = hooks_by_name.get(ast.unparse(c.args[1]).split(".")[-1])
+                    rw = rewrites(target) if target is not None else ["<representer not found in this module>"]
+                    run.instance("R14.10", mod.loc(c), f"{fi.qualname}: `{norm(c)[:70]}`", ok=not rw)
+                    if rw:
+                        run.violation("R14.10", mod, fi.qualname, c, f"the registered YAML representer rewrites strings ({', '.join(rw)}): the YAML rendering contains a value the source and the other renderings do not have")
+                if fn.split(".")[-1] in ("dumps", "dump", "safe_dump", "dump_all") and fn.split(".")[0] in ("json", "yaml", "json_module", "yaml_module") and (mod.name.endswith("mcp.eject") or mod.name.endswith("cli.main")):
+                    n10 += 1
+                    bad: list[str] = []
+                    for k in c.keywords:
+                        if k.arg in ("Dumper", "cls", "default"):
+                            target = hooks_by_name.get(ast.unparse(k.value).split(".")[-1])
+                            if target is None and ast.unparse(k.value) not in ("yaml.SafeDumper", "yaml.Dumper", "yaml.CSafeDumper", "str", "None"):
+                                bad.append(f"{k.arg}={ast.unparse(k.value)} (not readable here)")
+                            elif target is not None and rewrites(target):
+                                bad.append(f"{k.arg}={ast.unparse(k.value)} rewrites strings with {', '.join(rewrites(target))}")
+                    run.instance("R14.10", mod.loc(c), f"{fi.qualname}: `{norm(c)[:80]}`", ok=not bad)
+                    if bad:
+                        run.violation("R14.10", mod, fi.qualname, c, f"`{norm(c)[:80]}` serialises through a hook that changes strings: {'; '.join(bad)} - the rendering then contains leaves the source does not have, while canonical / authoring report lossy=false")
+    if n10 == 0:
+        raise AnalysisError("no json.dumps / yaml.dump call found in mcp.eject / cli.main")
+
     # ---------------------------------------------------------------- R14.9
     from .c04 import check_bool_keyed_tables
 
